@@ -1,0 +1,14 @@
+//go:build verif && !windows
+
+package caddy
+
+// VerifSetWorkingDir replaces the cached working directory that FastAbs joins
+// relative paths with (normally captured once from os.Getwd at start-up), so a
+// verification harness can run file-server cases against a fixed, reproducible
+// working directory. It returns the previous value. Not safe for concurrent use
+// with FastAbs. Only compiled with the `verif` build tag.
+func VerifSetWorkingDir(dir string) (prev string) {
+	prev = wd
+	wd, wderr = dir, nil
+	return prev
+}
